@@ -652,6 +652,7 @@ func (c *FnCtx) atomicInterfere(p *Path, ao *AtomicObj, obj Val) {
 	for _, st := range ao.State {
 		c.havoc(&p.heap, obj.Key+".$"+st, obj.T)
 	}
+	c.advanceAlloc(p) // other threads may have allocated in the meantime
 	env, pkg := c.atomicSelf(ao, obj)
 	ec := &EvalCtx{c: c, p: p, env: env, heap: &p.heap, pkg: pkg}
 	for _, cl := range ao.Inv {
